@@ -140,6 +140,8 @@ def run(ctx: Ctx) -> None:
     if wcall:
         dp = [p for p in wb.param_names() if p != "self"][0]
         ctx.ob("C02.R1", wb, "... unchanged", [norm(a) for a in wcall[0].args] == [dp], f"writes {[norm(a) for a in wcall[0].args]}")
+        rebinds = [n for n in own_nodes(wb.node) if isinstance(n, ast.Name) and n.id == dp and isinstance(n.ctx, (ast.Store, ast.Del))]
+        ctx.ob("C02.R1", wb, "... and the bytes handed in are never rebound before the write", not rebinds, f"`{dp}` is reassigned at line(s) {[n.lineno for n in rebinds]}: what is written is no longer what the caller encoded (e.g. a copy truncated for logging)")
     cm = base.methods["connection_made"]
     wsrc = [val for st, tgt, val in attr_writes(cm, "_writer")]
     ctx.ob("C02.R1", cm, "the writer is the transport's write", len(wsrc) == 1 and norm(wsrc[0]) in ("self._transport.write", "transport.write"), f"{[norm(w) for w in wsrc]}")
